@@ -36,6 +36,14 @@ ALPH = (["register", "map", "let", "macro", "loop", "from", "usepulses", "subcir
            "é", "π", "☃", "\x7f"])
 
 TEMPLATES = [
+    # literals whose magnitude overflows a float, both signs, in every role a number can play
+    "register q[1]\nprepare_all\nRx q[0] -1.0e999\nmeasure_all\n",
+    "register q[1]\nprepare_all\nRx q[0] -.5e400\nmeasure_all\n",
+    "register q[1]\nprepare_all\nRx q[0] +7.0e308999\nmeasure_all\n",
+    "register q[1]\nmacro m n { loop n { prepare_all ; measure_all } }\nm -1.0e999\n",
+    "register q[2]\nmacro m k { prepare_all ; X q[k] ; measure_all }\nm -2.5e4000\n",
+    "register q[1]\nmacro m n { subcircuit n { X q[0] } }\nm -1.0e999\n",
+    "let a -1.0e999\nregister q[1]\nprepare_all\nRx q[0] a\nmeasure_all\n",
     "register q[1]\nX '" + "1" * 20000 + "'\n",
     "register q[1]\nprepare_all\nX q[0] '" + "10" * 9000 + "'\nmeasure_all\n",
     "",
@@ -519,6 +527,16 @@ def relative_import_probe(ctx):
         if o[0] not in ("ImportError", "JaqalError", "JaqalParseError"):
             rec.violation(sig("C16", "wrong-exception:%s:relative-pulse-import-of-a-plain-directory" % o[0].replace("other:", "")),
                           {"outcome": list(o)}, {"kind": "import", "text": "from .vfplaindir usepulses *"})
+        # the caller's own gate dictionary (inject_pulses) is the caller's: importing a pulse module must not write into it
+        mine = dict(X.native())
+        before = list(mine.items())
+        lib.outcome(lib.parse, text, mine, autoload_pulses=True, import_path=d)
+        lib.outcome(lib.parse, text + "Nope q[0]\n", mine, autoload_pulses=True, import_path=d)
+        rec.count("relative-import-probes")
+        if list(mine.items()) != before:
+            rec.violation(sig("C16", "sticky-state:callers-inject_pulses-dictionary-modified"),
+                          {"added": sorted(set(mine) - {k for k, _ in before}), "removed": sorted({k for k, _ in before} - set(mine))},
+                          {"kind": "import", "text": text})
         minimal_import_probe(rec, d, text)
         fs_history_probe(rec, d, text)
         # history: absolute import of the same name before and after a relative import of it
